@@ -167,7 +167,8 @@ def rule_clean_parameters(rep: Report, repo: Repo, rule: str, r_uniform: Optiona
     param = func_params(fn)[0] if func_params(fn) and func_params(fn)[0] not in ("self", "cls") else func_params(fn)[1]
     LINES = ("sym", param)
     ev = Evaluator(repo, AGG, lm.cls)
-    outs = ev.run_function(fn, {})
+    from ..inline import comps_to_loops
+    outs = ev.run_function(comps_to_loops(fn), {})
     rets = [o for o in outs if o.kind == "return"]
     if not rets:
         raise AnalysisError("clean_doc_lines has no returning path")
@@ -334,6 +335,12 @@ def _indent_from_closing_line(t, o: Outcome, LINES) -> Tuple[bool, str]:
         return incs == 1, "indent scan shape not recognised" if incs != 1 else ""
     if t[0] == "call" and t[1][0] == "attr" and t[1][1] == last and t[1][2] in ("index", "find") and t[2] == (const("#"),):
         return True, ""
+    # len(last.partition('#')[0]) / len(last.split('#', 1)[0]): the characters in front of the first '#', the whole line if none
+    if t[0] == "call" and t[1] == glob("len") and len(t[2]) == 1 and t[2][0][0] == "sub" and t[2][0][2] == const(0):
+        c = t[2][0][1]
+        if c[0] == "call" and c[1][0] == "attr" and c[1][1] == last and \
+                ((c[1][2] == "partition" and c[2] == (const("#"),)) or (c[1][2] == "split" and c[2] == (const("#"), const(1)))):
+            return True, ""
     if t[0] == "binop" and t[1] == "-" and t[2] == ("call", glob("len"), (last,), ()):
         r = t[3]
         if r[0] == "call" and r[1] == glob("len") and r[2][0][0] == "call" and r[2][0][1] == ("attr", last, "lstrip"):
